@@ -34,7 +34,7 @@ def fbits(x):
 # ill-typed terms: (Prolog text, canonical harness text)
 BAD = [
     ("a", "'a'"), ("inf", "'inf'"), ("infinite", "'infinite'"), ("1.0", fbits(1.0)), ("2.5", fbits(2.5)),
-    ("-0.0", fbits(-0.0)), ("f(x)", "'f'('x')"), ("1+1", "'+'(1,1)"), ("[]", "[]"), ("[1]", "[1]"),
+    ("-1.5", fbits(-1.5)), ("f(x)", "'f'('x')"), ("1+1", "'+'(1,1)"), ("[]", "[]"), ("[1]", "[1]"),
     ("\"3\"", "\"3\""), ("'3'", "'3'"), ("-(1)", "'-'(1)"), ("foo(1,2)", "'foo'(1,2)"), ("1.0e10", fbits(1.0e10)),
 ]
 
@@ -107,7 +107,7 @@ def split_top(s, sep=","):
 
 def parse_bindings(item):
     """'{A=t,B=u}' -> dict; 'true' -> {}; None when it is not a binding set."""
-    if item == "true":
+    if item in ("true", "{}"):
         return {}
     if not (item.startswith("{") and item.endswith("}")):
         return None
